@@ -102,7 +102,23 @@ var c09QueryAlpha = []rune("ab1 -_/.é")
 
 // genAction draws one action, applies it to the model and returns its spelling.
 func (m *uiModel) genAction(t *rapid.T, classes map[string]bool) string {
-	switch rapid.SampledFrom([]string{"put", "put", "edit", "edit", "nav", "nav", "sel", "sel", "change-query", "pos"}).Draw(t, "class") {
+	class := rapid.SampledFrom([]string{"put", "put", "edit", "edit", "nav", "nav", "sel", "sel", "change-query", "pos", "put-from-current"}).Draw(t, "class")
+	if class == "put-from-current" {
+		// a query edit that is likely to keep the current line in the list (what --track is about):
+		// append a character of that line (chosen against the list as it is before this POST)
+		class = "put"
+		if cur := m.current(); cur >= 0 {
+			rs := []rune(m.lines[cur])
+			r := rs[rapid.IntRange(0, len(rs)-1).Draw(t, "charOfCurrent")]
+			if r != ' ' && r != '\'' && r != '^' && r != '$' && r != '!' && r != '|' && r != '(' && r != ')' {
+				m.ed.Apply("end-of-line", "")
+				m.ed.Apply("put", string(r))
+				classes["edit"] = true
+				return "end-of-line+put(" + string(r) + ")"
+			}
+		}
+	}
+	switch class {
 	case "put":
 		s := string(rapid.SliceOfN(rapid.SampledFrom(c09QueryAlpha), 1, 3).Draw(t, "text"))
 		m.ed.Apply("put", s)
@@ -244,11 +260,11 @@ func c09Session(t *rapid.T) {
 	layout := rapid.SampledFrom([]string{"default", "reverse", "reverse-list"}).Draw(t, "layout")
 	multi := rapid.SampledFrom([]string{"off", "1", "2", "3", "unlimited"}).Draw(t, "multi")
 	cycle := rapid.Bool().Draw(t, "cycle")
-	track := rapid.IntRange(0, 4).Draw(t, "track") == 0
+	track := rapid.IntRange(0, 2).Draw(t, "track") == 0
 	fileword := rapid.IntRange(0, 3).Draw(t, "filepathWord") == 0
 	info := rapid.SampledFrom([]string{"default", "default", "inline", "hidden"}).Draw(t, "info")
 	sorted := rapid.Bool().Draw(t, "sorted")
-	tac := rapid.IntRange(0, 3).Draw(t, "tac") == 0
+	tac := rapid.IntRange(0, 2).Draw(t, "tac") == 0
 
 	m := &uiModel{lines: lines, track: track, resultsFor: map[string][]int{}, t: t}
 	margs := []string{}
